@@ -116,6 +116,7 @@ type c39State struct {
 
 	bad    []hbfs.Fail
 	lastStale bool
+	lastStaleOverlap bool
 	staleD int // (d)-shaped anomalies seen on reconciles with a stale block cache (informational)
 	writes int
 }
@@ -329,7 +330,7 @@ func c39Names(m map[string]*v3.IPPool) []string {
 // reconcile runs the real reconcile() and evaluates the statement's clauses on the truth world.
 func (s *c39State) reconcile(ipamFail bool) {
 	freshP, freshB := s.poolsFresh(), s.blocksFresh()
-	s.lastStale = false
+	s.lastStale, s.lastStaleOverlap = false, false
 	before := s.snapshot()
 	wasActive := map[string]bool{}
 	for k, v := range s.wasActive {
@@ -355,21 +356,32 @@ func (s *c39State) reconcile(ipamFail bool) {
 			}
 		}
 	}
-	// (b) a pool that was already allocatable is never displaced (holds whatever the cache looked like)
+	// (b) a pool that was already allocatable is never displaced by a newer overlapping pool (holds whatever
+	// the cache looked like): an established pool loses its condition while an overlapping pool that was
+	// NOT established before the reconcile comes out of it allocatable.
 	for _, n := range c39Names(before) {
 		b := before[n]
 		a := after[n]
-		if !c39Established(b) || a == nil || a.Spec.Disabled || a.DeletionTimestamp != nil {
+		if !c39Established(b) || a == nil || a.Spec.Disabled || a.DeletionTimestamp != nil || c39CondTrue(a) {
 			continue
 		}
-		clash := false
-		for m, o := range before {
-			if m != n && c39Established(o) && c39Overlap(o.Spec.CIDR, b.Spec.CIDR) {
-				clash = true // two established overlapping pools: reported by (a) where it arises
+		for _, m := range c39Names(after) {
+			q := after[m]
+			if m != n && c39Overlap(q.Spec.CIDR, b.Spec.CIDR) && c39CondTrue(q) && c39IPAMAllocatable(q) && !c39Established(before[m]) {
+				s.fail("established-pool-displaced", "pool %s (%s) was allocatable before the reconcile and lost that to the overlapping pool %s (%s), which was not: %s (fresh pool cache=%v)", n, b.Spec.CIDR, m, q.Spec.CIDR, c39Show(after), freshP)
 			}
 		}
-		if !clash && !c39CondTrue(a) {
-			s.fail("established-pool-displaced", "pool %s (%s) was allocatable before the reconcile and is not afterwards: %s (fresh pool cache=%v)", n, b.Spec.CIDR, c39Show(after), freshP)
+	}
+	// informational: two allocatable overlapping pools in the truth right after a reconcile that ran on a stale cache
+	if !(freshP && freshB) {
+		ns := c39Names(after)
+		for i, n := range ns {
+			for _, m := range ns[i+1:] {
+				p, q := after[n], after[m]
+				if c39CondTrue(p) && c39CondTrue(q) && c39IPAMAllocatable(p) && c39IPAMAllocatable(q) && c39Overlap(p.Spec.CIDR, q.Spec.CIDR) && !(c39CondTrue(before[n]) && c39CondTrue(before[m])) {
+					s.lastStaleOverlap = true
+				}
+			}
 		}
 	}
 	if freshP && freshB && err == nil {
@@ -658,6 +670,10 @@ func c39Spec(c *vk.Ctx, u *c39Universe, name string, depth int, tree bool, worke
 				// informational: clause (d) shape on a reconcile whose block cache was stale
 				c.Add("info_release_with_block_unseen_by_stale_block_cache", 1)
 			}
+			if s.lastStaleOverlap && len(hist) > 0 && strings.Contains(hist[len(hist)-1].Op, "reconcile") {
+				// informational: a reconcile on a stale pool cache made two overlapping pools allocatable at once
+				c.Add("info_stale_cache_reconcile_left_two_overlapping_allocatable_pools", 1)
+			}
 			return s.bad
 		},
 		Show:     func(e c39Ev) string { return e.String() },
@@ -748,11 +764,11 @@ func TestVerif_C39(t *testing.T) {
 		c.Sample(map[string]any{"history": []string{"create:p24", "syncreconcile", "create:p25a", "blockadd:10.0.0.0/26", "syncreconcile", "delete:p24", "syncreconcile", "blockdel:10.0.0.0/26", "syncreconcile", "syncreconcile"},
 			"meaning": "p24 becomes allocatable and gets the finalizer; p25a is masked (CIDROverlap); deleting p24 makes it terminating, it keeps masking p25a while the block exists; once the block is gone p24 is released and the following reconcile makes p25a allocatable"})
 		w := 6
-		hbfs.Explore(c, c39Spec(c, quick, "ippool-quick-graph", c.Pick(9, 14), false, w))
-		hbfs.Explore(c, c39Spec(c, mid, "ippool-mid-graph", c.Pick(7, 12), false, w))
+		hbfs.Explore(c, c39Spec(c, quick, "ippool-quick-graph", c.Pick(8, 11), false, w))
+		hbfs.Explore(c, c39Spec(c, mid, "ippool-mid-graph", c.Pick(7, 10), false, w))
 		hbfs.Explore(c, c39Spec(c, quick, "ippool-quick-tree", c.Pick(4, 5), true, w))
 		if c.Thorough() {
-			hbfs.Explore(c, c39Spec(c, full, "ippool-full-graph", 9, false, w))
+			hbfs.Explore(c, c39Spec(c, full, "ippool-full-graph", 7, false, w))
 		}
 	})
 }
